@@ -286,8 +286,8 @@ CheckStmt(env, ctx, s) ==
             LET b == CheckBlock(env, [ctx EXCEPT !.loop = @ + 1], s.b, FALSE) IN
             IF b.c # "ok" THEN b
             ELSE IF ~LoopBodyOk(b.t) THEN Fail("LoopBody")
-            \* a loop nothing breaks out of diverges; whether a diverging expression inside counts as a way out is not settled
-            ELSE IF ~b.bk /\ b.nv THEN Fail("unspec")
+            \* only a break of its own ends a loop: return and throw leave the function / raise, nothing after the loop is
+            \* reached through them
             ELSE Res("ok", IF b.bk THEN TNull ELSE TNever, FALSE, FALSE, env, b.pr)
       [] s.k = "while" ->
             LET c == TypeOf(env, ctx, s.c) IN
